@@ -18,6 +18,7 @@ type c07call struct {
 	hs       int // handshake index in the run's table
 	resize   int // >=0: this is a Resize(resize) call
 	res      bool
+	pos      int // index in the log
 }
 
 type c07hs struct {
@@ -41,7 +42,7 @@ func runC07c(rc *RunCtx, race bool) {
 		return len(hss) - 1
 	}
 	add := func(task, h int) *c07call {
-		c := &c07call{task: task, hs: h, resize: -1}
+		c := &c07call{task: task, hs: h, resize: -1, pos: len(log)}
 		stamp++
 		c.inv = stamp
 		log = append(log, c)
@@ -147,8 +148,14 @@ func runC07c(rc *RunCtx, race bool) {
 					if !c.res {
 						// never seen before: only a 32-bit checksum collision excuses a refusal
 						m := minCap(0, c.ret)
-						if m == 0 {
-							rc.Failf("fresh-refused-with-cache-disabled", "a never-seen handshake was refused although a capacity of 0 was in force")
+						maxEver := initial
+						for _, r := range resizes {
+							if r.resize > maxEver {
+								maxEver = r.resize
+							}
+						}
+						if maxEver == 0 {
+							rc.Failf("fresh-refused-with-cache-disabled", "a never-seen handshake was refused although the history size was 0 throughout")
 							continue
 						}
 						r2 := add(t, newHS(t))
@@ -165,9 +172,13 @@ func runC07c(rc *RunCtx, race bool) {
 				}
 				// number of other checks that may have been made between prev and c
 				between := 0
-				for _, o := range log {
-					if o != c && o != prev && o.inv < c.ret && (o.ret == 0 || o.ret > prev.inv) {
-						between++
+				if nTasks == 1 {
+					between = c.pos - prev.pos - 1 // sequential history
+				} else {
+					for _, o := range log {
+						if o != c && o != prev && o.inv < c.ret && (o.ret == 0 || o.ret > prev.inv) {
+							between++
+						}
 					}
 				}
 				m := minCap(prev.inv, c.ret)
